@@ -36,6 +36,7 @@ Pct(cs) == [t |-> "pct", cs |-> cs]
 UnitLeaf(cs) == [t |-> "unit", cs |-> cs]
 Bin(o, a, b) == [t |-> "bin", op |-> o, l |-> a, r |-> b]
 Call(fn, a) == [t |-> "call", fn |-> fn, a |-> a]
+Qty(cs, us) == [t |-> "qty", cs |-> cs, us |-> us]            \* a number with a unit word
 LeavesFull == {Lit(<<"0">>), Lit(<<"1">>), Lit(<<"2">>), Lit(<<"3">>), Lit(<<"-", "2">>), Lit(<<"0", ".", "5">>),
                Lit(<<"0", ".", "1">>), Pct(<<"2", "5">>)}
 LeavesSmall == {Lit(<<"0">>), Lit(<<"2">>), Lit(<<"-", "3">>), Lit(<<".", "5">>)}
@@ -44,8 +45,11 @@ LeavesPrimes == {Lit(<<"2">>), Lit(<<"3">>), Lit(<<"5">>), Lit(<<"7">>),
 \* "pos": one assignment only -- the i-th leaf is the i-th prime (operator sequences up to length 5
 \* with every placement of parentheses stay enumerable)
 PosLeaves == <<Lit(<<"2">>), Lit(<<"3">>), Lit(<<"5">>), Lit(<<"7">>), Lit(<<"1", "1">>), Lit(<<"1", "3">>), Lit(<<"1", "7">>)>>
+\* "qty": quantities of two dimensions, prefixed and not, a derived unit, and a plain number
+LeavesQty == {Qty(<<"2">>, <<"m">>), Qty(<<"3">>, <<"k", "m">>), Qty(<<"5">>, <<"s">>), Qty(<<"0", ".", "5">>, <<"m", "i", "n">>),
+              Qty(<<"7">>, <<"N">>), Lit(<<"4">>)}
 LeafAlphabet == CASE LeafSet = "full" -> LeavesFull [] LeafSet = "small" -> LeavesSmall [] LeafSet = "primes" -> LeavesPrimes
-                  [] LeafSet = "pos" -> {PosLeaves[1]}
+                  [] LeafSet = "pos" -> {PosLeaves[1]} [] LeafSet = "qty" -> LeavesQty
 LeafChoices(n) == IF LeafSet = "pos" THEN {[i \in 1..n |-> PosLeaves[i]]} ELSE [1..n -> LeafAlphabet]
 UnitLeaves == IF LeafSet = "pos" THEN {UnitLeaf(<<"k", "m">>)} ELSE {UnitLeaf(<<"m">>), UnitLeaf(<<"k", "m">>), UnitLeaf(<<"s">>)}
 Ops == {"+", "-", "*", "/", "^"}
@@ -76,6 +80,8 @@ EvalTree(x) ==
   CASE x.t = "lit" -> LitVal(x.cs)
     [] x.t = "pct" -> LET v == LitVal(x.cs) IN
                       IF IsVal(v) THEN Quantity(RDiv(v.v.si, RInt(100)), QDiv(v.v.q, <<100, 1>>), NoUnit) ELSE v
+    [] x.t = "qty" -> LET v == LitVal(x.cs) IN
+                      IF IsVal(v) THEN Quantity(v.v.si, v.v.q, CompoundOfLeaf(x.us)) ELSE v
     [] x.t = "call" -> LET a == EvalTree(x.a) IN IF IsVal(a) THEN Builtin(FnName(x.fn), <<a.v>>) ELSE a
     [] x.t = "bin" /\ x.op = "to" -> LET l == EvalTree(x.l) IN
                                      IF ~IsVal(l) THEN l ELSE Cast(l.v, CompoundOfLeaf(x.r.cs))
@@ -100,7 +106,9 @@ Render(x, lay) ==
   CASE x.t = "lit" -> x.cs
     [] x.t = "pct" -> x.cs \o <<"%">>
     [] x.t = "unit" -> x.cs
-    [] x.t = "call" -> x.fn \o ParenL(Render(x.a, lay), lay.sp)
+    [] x.t = "qty" -> x.cs \o (IF lay.sp = "wide" THEN <<" ">> ELSE <<>>) \o x.us
+    \* (in the "full" layout the argument is itself wholly parenthesised: round((7/2)))
+    [] x.t = "call" -> x.fn \o ParenL(IF lay.par = "full" THEN ParenL(Render(x.a, lay), lay.sp) ELSE Render(x.a, lay), lay.sp)
     [] x.t = "bin" ->
        LET needL == x.l.t = "bin" /\ (lay.par = "full" \/ OpPrio(x.l.op) < OpPrio(x.op))
            needR == x.r.t = "bin" /\ (lay.par = "full" \/ OpPrio(x.r.op) <= OpPrio(x.op))
@@ -108,7 +116,10 @@ Render(x, lay) ==
            b == Render(x.r, lay) IN
        (IF needL THEN ParenL(a, lay.sp) ELSE a) \o OpChars(x.op, lay.sp) \o (IF needR THEN ParenL(b, lay.sp) ELSE b)
 RenderTop(x, lay) == IF lay.sp = "wide" THEN <<" ", "\t">> \o Render(x, lay) \o <<" ", " ">> ELSE Render(x, lay)
-Layouts == IF LayoutSet = "all" THEN {[par |-> p, sp |-> s] : p \in {"min", "full"}, s \in {"all", "tight", "wide"}}
+\* (with quantities as leaves an operator needs a blank before it, or the unit would swallow it: no tight layout)
+Layouts == IF LayoutSet = "spaced" THEN {[par |-> p, sp |-> s] : p \in {"min", "full"}, s \in {"all", "wide"}}
+           ELSE IF LayoutSet = "spaced1" THEN {[par |-> "min", sp |-> "all"]}
+           ELSE IF LayoutSet = "all" THEN {[par |-> p, sp |-> s] : p \in {"min", "full"}, s \in {"all", "tight", "wide"}}
            ELSE {[par |-> "min", sp |-> "all"], [par |-> "full", sp |-> "tight"]}
 
 \* ---- reading a rendering back
@@ -119,6 +130,7 @@ AstTree(s, toks, a) ==
   CASE a.t = "num" -> Lit(Text(s, toks[a.i]))
     [] a.t = "pct" -> Pct(Text(s, toks[a.i]))
     [] a.t = "bin" -> Bin(a.op, AstTree(s, toks, a.l), AstTree(s, toks, a.r))
+    [] a.t = "qty" -> Qty(Text(s, toks[a.i]), JoinSeqs(s, toks, a.u))
     [] a.t = "cast" -> Bin("to", AstTree(s, toks, a.l), UnitLeaf(JoinSeqs(s, toks, a.u)))
     [] a.t = "call" -> IF Len(a.args) = 1 THEN Call(Text(s, toks[a.i]), AstTree(s, toks, a.args[1])) ELSE [t |-> "other"]
     [] OTHER -> [t |-> "other"]
@@ -149,6 +161,7 @@ XK(k) == [k |-> k, q |-> Unknown]
 ExactVal(x) ==      \* [k |-> "q", q] or k = "dz" / "err" / "big"
   CASE x.t = "lit" -> XQ(LitQ(Denote(x.cs)))
     [] x.t = "pct" -> XQ(QDiv(LitQ(Denote(x.cs)), <<100, 1>>))
+    [] x.t = "qty" -> XK("big")
     [] x.t = "call" -> LET a == ExactVal(x.a) IN
                        IF a.k = "q" /\ FnName(x.fn) = "round" THEN XQ(QInt(QRound(a.q))) ELSE IF a.k = "q" THEN XK("big") ELSE a
     [] x.t = "bin" /\ x.op = "to" -> LET l == ExactVal(x.l) IN IF l.k = "q" THEN XK("big") ELSE l
